@@ -6,7 +6,8 @@ import time
 from vlib import (Inconclusive, Scratch, Verdict, copy_specs, go_build, log, parse_tla_tuple, run_player, tlc, validate_sharded, write_evidence, NCPU)
 
 FAMILY = "console"
-VC = {"level": ["lvl-info", "lvl-warn", "lvl-custom", "lvl-num"], "time": ["time-rfc", "time-bad", "time-unix"], "message": ["msg"], "caller": ["caller"]}
+VC = {"level": ["lvl-info", "lvl-warn", "lvl-custom", "lvl-num"], "time": ["time-rfc", "time-bad", "time-unix", "time-real", "time-real", "time-real"], "message": ["msg"], "caller": ["caller"]}
+NTSETS = 7     # combinations of TimeFieldFormat x ConsoleWriter.TimeFormat x TimeLocation in the player (tsets)
 GENERIC = ["plain", "quote", "int", "floatexp", "bool", "null", "obj", "arr", "objpct", "arrpct", "pct"]
 
 
@@ -24,7 +25,10 @@ def cases_of(r, rng, default_parts=("time", "level", "caller", "message")):
                 vc.append(rng.choice(["plain", "int"]))      # custom part: %s of the decoded value
             else:
                 vc.append(rng.choice(GENERIC))
-        out.append({"ev": c["ev"], "vc": vc, "cfg": c["cfg"], "defaultparts": tuple(c["cfg"]["parts"]) == tuple(default_parts) and rng.random() < 0.5})
+        # time-real members are logged with Event.Time under a rotating combination of the time settings; the other time
+        # classes (strings / integers written by hand) keep the default settings they were written for
+        tset = rng.randrange(NTSETS) if "time-real" in vc and not any(x in vc for x in ("time-rfc", "time-bad", "time-unix")) else 0
+        out.append({"ev": c["ev"], "vc": vc, "cfg": c["cfg"], "tset": tset, "defaultparts": tuple(c["cfg"]["parts"]) == tuple(default_parts) and rng.random() < 0.5})
     return out
 
 
